@@ -240,14 +240,15 @@ theorem open_failure_restores_table (streams : Nat) (f : Fresh) (t : FdTable) (h
   openFdsFailed_restores streams f t hf
 
 open Kernel in
-/-- delivery over the abstract pipe model: from the initial state (payload `P` to write, child data `O`
+/-- PROTOCOL-LEVEL (abstract pipe model, one usage protocol against one child shape; see the OPEN block):
+    delivery over the abstract pipe model: from the initial state (payload `P` to write, child data `O`
     for stdout and `E` for stderr, exit code `c`, pipe capacity `cap >= 1`) every reachable state `s`, whatever
     the scheduler and the sizes of partial transfers were,
     (1) can take another step unless `join` has returned (no deadlock),
     (2) has a smaller measure than its predecessor (every run is finite), and
     (3) once `join` has returned: the child has read exactly `P`, the parent has read exactly `O` and `E`
         before end-of-file, and `join` delivered `c` -/
-theorem pipe_protocol_delivers (cap : Nat) (hcap : 0 < cap) (P O E : List Nat) (c : Nat) (s : Sys)
+theorem pipe_protocol_delivers_in_pipe_model (cap : Nat) (hcap : 0 < cap) (P O E : List Nat) (c : Nat) (s : Sys)
     (h : Reach (Sys.init cap P O E c) s) :
     (s.pPhase ≠ .joined → ∃ s', Step s s') ∧
     (∀ s', Step s s' → s'.measure < s.measure) ∧
@@ -255,9 +256,9 @@ theorem pipe_protocol_delivers (cap : Nat) (hcap : 0 < cap) (P O E : List Nat) (
   ⟨progress (Inv.reach h) hcap, fun _ hs => step_decreases hs, delivered (Inv.reach h)⟩
 
 open Kernel in
-/-- total correctness in the pipe model: a run of `n` steps has `n <= 2|P| + 2|O| + 2|E| + 7`, and a state in
+/-- PROTOCOL-LEVEL (abstract pipe model): total correctness in the pipe model: a run of `n` steps has `n <= 2|P| + 2|O| + 2|E| + 7`, and a state in
     which no step is possible is one in which `join` has returned with everything delivered -/
-theorem pipe_protocol_total (cap : Nat) (hcap : 0 < cap) (P O E : List Nat) (c : Nat) (n : Nat) (s : Sys)
+theorem pipe_protocol_total_in_pipe_model (cap : Nat) (hcap : 0 < cap) (P O E : List Nat) (c : Nat) (n : Nat) (s : Sys)
     (h : ReachN (Sys.init cap P O E c) n s) :
     n ≤ 2 * P.length + 2 * O.length + 2 * E.length + 7 ∧
     ((∀ s', ¬ Step s s') → s.pPhase = .joined ∧ s.gotIn = P ∧ s.gotOut = O ∧ s.gotErr = E ∧ s.code = some c) := by
@@ -266,7 +267,7 @@ theorem pipe_protocol_total (cap : Nat) (hcap : 0 < cap) (P O E : List Nat) (c :
     simp [Sys.measure, Sys.init, pRank, cRank, b2n] at this
     omega
   · have hr := h.reach
-    have hd := pipe_protocol_delivers cap hcap P O E c s hr
+    have hd := pipe_protocol_delivers_in_pipe_model cap hcap P O E c s hr
     have hj : s.pPhase = .joined := by
       cases hp : s.pPhase with
       | joined => rfl
@@ -275,32 +276,57 @@ theorem pipe_protocol_total (cap : Nat) (hcap : 0 < cap) (P O E : List Nat) (c :
     exact ⟨hj, hd.2.2 hj⟩
 
 open Kernel in
-/-- `join()` entered while the child is still going to write, nobody reading (also the destructor): with
-    `join()` as coded (`joinProgram`: waitpid first, the pipe ends are closed afterwards), for every pipe
-    capacity, all child outputs that fit into the pipes, every exit code and every schedule: some step is
-    possible until `join()` has returned, every step decreases a measure, the child is never hit by SIGPIPE,
-    and when `join()` has returned it stored the child's exit code and the child ran to completion (all its
-    output is in the pipes) -/
-theorem join_returns_exit_code (cap : Nat) (O E : List Nat) (hO : O.length ≤ cap) (hE : E.length ≤ cap) (c : Nat)
-    (s : SysJ) (h : ReachJ (SysJ.init cap joinProgram O E c) s) :
+/-- PROTOCOL-LEVEL (abstract pipe model, see the OPEN block): `join()` entered while the child still reads its
+    input and is still going to write, nobody reading (also the destructor).  With `join()` as coded
+    (`joinProgram`: close the stdin write end, waitpid, then close the read ends; closing an end that is not
+    held does nothing), for every pipe capacity, whichever pipe ends the Process object holds (`inp/out/err`),
+    every input `I` already written, a child that reads its stdin to the end or not at all (`reads`), all child
+    outputs that fit into the pipes and go to redirected streams only, every exit code and every schedule:
+    some step is possible until `join()` has returned, every step decreases a measure, the child is never hit
+    by SIGPIPE, and when `join()` has returned it stored the child's exit code and the child ran to completion
+    (it has read all of `I`, all its output is in the pipes) -/
+theorem join_returns_exit_code_in_pipe_model (cap : Nat) (inp out err reads : Bool) (I O E : List Nat)
+    (hI : reads = false → I = []) (hout : out = false → O = []) (herr : err = false → E = [])
+    (hO : O.length ≤ cap) (hE : E.length ≤ cap) (c : Nat)
+    (s : SysJ) (h : ReachJ (SysJ.init cap joinProgram inp out err reads I O E c) s) :
     (s.prog ≠ [] → ∃ s', StepJ s s') ∧
     (∀ s', StepJ s s' → s'.measure < s.measure) ∧
     s.cPhase ≠ .signalled ∧
-    (s.prog = [] → s.reaped = some c ∧ s.cPhase = .exited ∧ s.outQ = O ∧ s.errQ = E) :=
-  ⟨progressJ (InvJ.reach h) hO hE, fun _ hs => stepJ_decreases hs, (InvJ.reach h).not_sig, joinedJ (InvJ.reach h)⟩
+    (s.prog = [] → s.reaped = some c ∧ s.cPhase = .exited ∧ s.gotIn = I ∧ s.outQ = O ∧ s.errQ = E) :=
+  ⟨progressJ (InvJ.reach hI hout herr h) hO hE, fun _ hs => stepJ_decreases hs, (InvJ.reach hI hout herr h).not_sig,
+    joinedJ (InvJ.reach hI hout herr h)⟩
 
--- the order of the actions inside join() matters: with the pipe ends closed BEFORE waitpid there is a schedule
--- in which the child is terminated by SIGPIPE and join() stores 0 instead of the exit code 7
 open Kernel in
-example : ∃ s, ReachJ (SysJ.init 8 [.closeOut, .closeErr, .closeIn, .wait] [104] [] 7) s ∧
+/-- the action list of `join()` leaves no descriptor member set: it agrees with `Proc.step .join` of the
+    Process-object model (`Proc.init` = no pid, no descriptors) -/
+theorem join_actions_match_process_object (p : Proc) (h : p.running = true) :
+    actsOnFlags joinProgram (p.out, p.err, p.inp) = ((p.step .join).1.out, (p.step .join).1.err, (p.step .join).1.inp) := by
+  obtain ⟨r, o, e, i⟩ := p
+  simp at h; subst h
+  cases o <;> cases e <;> cases i <;> rfl
+
+-- the order of the actions inside join() matters in both directions:
+-- (1) the read ends closed BEFORE waitpid (seeded change C20-4): there is a schedule in which the child is
+--     terminated by SIGPIPE and join() stores 0 instead of the exit code 7
+open Kernel in
+example : ∃ s, ReachJ (SysJ.init 8 [.closeOut, .closeErr, .closeIn, .wait] true true true false [] [104] [] 7) s ∧
     s.prog = [] ∧ s.cPhase = .signalled ∧ s.reaped = some 0 :=
   ⟨_, .step (.step (.step (.step (.step .init (.pCloseOut _ _ rfl)) (.cPipeOut _ rfl rfl (by decide)))
       (.pCloseErr _ _ rfl)) (.pCloseIn _ _ rfl)) (.pWaitSignalled _ _ rfl rfl), rfl, rfl, rfl⟩
+-- (2) the stdin write end closed only AFTER waitpid (the code before fixes/args/0008): with a child that reads its
+--     input to the end nothing can move in the very first state -- join() never returns
+open Kernel in
+example : ∀ s', ¬ StepJ (SysJ.init 8 [.wait, .closeOut, .closeErr, .closeIn] true true true true [] [104] [] 7) s' := by
+  intro s' h
+  cases h <;> simp_all [SysJ.init]
 
--- the executable schedule used by the driver agrees: as coded 7, closed first 0
-example : (Kernel.SysJ.exec 64 (Kernel.SysJ.init 8 Kernel.joinProgram [104] [105] 7)) = (some 7, true) := by decide
-example : (Kernel.SysJ.exec 64 (Kernel.SysJ.init 8 [.closeOut, .closeErr, .closeIn, .wait] [104] [105] 7)) = (some 0, false) := by
+-- the executable schedule used by the driver agrees: as coded 7; read ends closed first 0; stdin closed last: never
+example : (Kernel.SysJ.exec 64 (Kernel.SysJ.init 8 Kernel.joinProgram true true true true [1, 2] [104] [105] 7)) = (some 7, true) := by
   decide
+example : (Kernel.SysJ.exec 64 (Kernel.SysJ.init 8 [.closeOut, .closeErr, .closeIn, .wait] true true true false [] [104] [105] 7))
+    = (some 0, false) := by decide
+example : (Kernel.SysJ.exec 64 (Kernel.SysJ.init 8 [.wait, .closeOut, .closeErr, .closeIn] true true true true [1] [104] [] 7))
+    = (none, false) := by decide
 
 -- the hypotheses are satisfiable: descriptors 3..8 on a table with 0, 1, 2; a three-step run
 example : (Kernel.Fresh.mk 3 4 5 6 7 8).Ok (fun x => if x < 3 then some (.other x) else none) := by
